@@ -28,7 +28,8 @@ def to_real(rf, cls=None):
     for k, v in rf.vars.items():
         kw = OrderedDict((ak, (av.copy() if isinstance(av, np.ndarray) else av))
                          for ak, av in v.attrs.items())
-        tc = 'c' if v.data.dtype.kind == 'S' else v.data.dtype.char
+        tc = v.data.dtype.str[1:] if v.data.dtype.kind == 'S' and v.data.dtype.itemsize > 1 else (
+            'c' if v.data.dtype.kind == 'S' else v.data.dtype.char)
         if v.masked:
             fv = kw.pop('fill_value', None)
             var = f.createVariable(k, tc, v.dims, fill_value=v.fill if v.fill is not None else fv, **kw)
